@@ -217,6 +217,7 @@ func embedAll(r *core.Rng, ec *exifCase, big bool) []embedded {
 	if r.Chance(1, 5) {
 		parts.Align = 1 + r.Intn(41)
 	}
+	parts.OddSiblings = r.Chance(1, 3)
 	cr3 := gen.BuildCR3(r, parts, r.Pick(0, 1, 2), r.Chance(1, 4))
 	out = append(out, embedded{name: "CR3", bytes: cr3.Bytes, it: 15, decs: []decodeFn{dDecode, dDecodeCR3}})
 	return out
